@@ -8,6 +8,7 @@ import (
 	"os"
 	"strings"
 
+	"github.com/hack-pad/hackpadfs"
 	"verif/harness/engine"
 	"verif/harness/fsad"
 )
@@ -54,12 +55,55 @@ type replayFile struct {
 	Expected string   `json:"expected"`
 }
 
+func mkfs(kind string) func() (hackpadfs.FS, func(), error) {
+	switch kind {
+	case "mem":
+		return fsad.MemFS
+	case "kvplain":
+		return fsad.KVPlainFS
+	case "osref":
+		return fsad.OSRefFS
+	}
+	fmt.Fprintln(os.Stderr, "unknown fs kind", kind)
+	os.Exit(2)
+	return nil
+}
+
+func handlesAdapter(kind string) engine.Adapter {
+	cfg := fsad.HConfig{AdapterName: kind, PropIO: "C02", PropClosed: "C17", MkFS: mkfs(kind)}
+	if kind == "osref" {
+		cfg.Reference = true
+		cfg.PropIO, cfg.PropClosed = "SPEC", "SPEC"
+	}
+	return &fsad.HAdapter{Cfg: cfg}
+}
+
+func dirhAdapter(kind string) engine.Adapter {
+	cfg := fsad.DConfig{AdapterName: kind, PropList: "C16", PropClosed: "C17", PropIO: "C02"}
+	switch kind {
+	case "mem", "kvplain", "osref":
+		cfg.MkDirFS = fsad.Writable(mkfs(kind))
+	default:
+		fmt.Fprintln(os.Stderr, "unknown dirh adapter", kind)
+		os.Exit(2)
+	}
+	if kind == "osref" {
+		cfg.Reference = true
+		cfg.PropList, cfg.PropClosed, cfg.PropIO = "SPEC", "SPEC", "SPEC"
+	}
+	return &fsad.DAdapter{Cfg: cfg}
+}
+
 func adaptersFor(module, adapter, names string, depth int) []engine.Adapter {
 	var ads []engine.Adapter
 	for _, a := range strings.Split(adapter, ",") {
 		switch module {
 		case "fscore":
 			ads = append(ads, fsAdapter(a, strings.Split(names, ","), depth))
+		case "handles":
+			ads = append(ads, handlesAdapter(a))
+		case "dirh":
+			ads = append(ads, dirhAdapter(a))
 		default:
 			fmt.Fprintln(os.Stderr, "unknown module", module)
 			os.Exit(2)
